@@ -368,8 +368,8 @@ theorem cidmap_roundtrip (ids : List Nat) (hb : ∀ g ∈ ids, g < 65536) (cid :
   cidToGid_encode ids hb cid
 
 /-- END TO END for glyph selection: after any history of `Get` calls, the code that was written into the
-content stream for glyph `g` selects exactly `g` of the source font — with subsetting (embedded program in
-`IDs` order), and without subsetting for TrueType fonts (CIDToGIDMap stream). -/
+content stream for glyph `g` selects exactly `g` of the source font — when a subset program is embedded, and
+for TrueType fonts whenever the full program is embedded (CIDToGIDMap stream). -/
 theorem code_selects_glyph_partial (subset trueType : Bool) (hmode : subset = true ∨ trueType = true)
     (h : List Nat) (hb : ∀ g ∈ h, g < 65536) (g c : Nat)
     (hgc : (g, c) ∈ h.zip (Sub.new.run h).2) : codeGlyph subset trueType (Sub.new.run h).1.ids c = some g := by
@@ -384,24 +384,39 @@ theorem code_selects_glyph_partial (subset trueType : Bool) (hmode : subset = tr
     rw [cidToGid_encode _ i.bound]
     exact hs
 
-/-- the full statement (every embedding mode); it does NOT hold for the unchanged code -/
-def code_selects_glyph_statement : Prop :=
-  ∀ (subset trueType : Bool) (h : List Nat), (∀ g ∈ h, g < 65536) → ∀ g c,
-    (g, c) ∈ h.zip (Sub.new.run h).2 → codeGlyph subset trueType (Sub.new.run h).1.ids c = some g
+/-- FULL STRENGTH for TrueType fonts: whatever the SubsetFonts option and whether or not `sfnt.Subset`
+succeeded (the fallback of /repo 788048f writes the stream), every code shows the laid-out glyph. -/
+theorem code_selects_glyph_truetype (wanted subsetOK : Bool) (h : List Nat) (hb : ∀ g ∈ h, g < 65536) (g c : Nat)
+    (hgc : (g, c) ∈ h.zip (Sub.new.run h).2) :
+    fontCodeGlyph wanted subsetOK true (Sub.new.run h).1.ids c = some g :=
+  code_selects_glyph_partial _ true (Or.inr rfl) h hb g c hgc
 
-/-- Witness of the defect: an OpenType/CFF font embedded whole (SubsetFonts off). The first glyph used, say
-glyph 5, gets code 1; the CIDToGIDMap stream that would translate 1 ↦ 5 does not apply to a CIDFontType0, a
-conforming reader shows glyph 1. -/
-theorem cff_unsubsetted_witness :
-    (Sub.new.run [5]).2 = [1] ∧ codeGlyph false false (Sub.new.run [5]).1.ids 1 = some 1 := by decide
+/-- for CFF fonts: whenever the subset program is embedded -/
+theorem code_selects_glyph_cff_subset (h : List Nat) (hb : ∀ g ∈ h, g < 65536) (g c : Nat)
+    (hgc : (g, c) ∈ h.zip (Sub.new.run h).2) :
+    fontCodeGlyph true true false (Sub.new.run h).1.ids c = some g :=
+  code_selects_glyph_partial true false (Or.inl rfl) h hb g c hgc
+
+/-- the full statement (every font format and embedding outcome); it does NOT hold for the unchanged code -/
+def code_selects_glyph_statement : Prop :=
+  ∀ (wanted subsetOK trueType : Bool) (h : List Nat), (∀ g ∈ h, g < 65536) → ∀ g c,
+    (g, c) ∈ h.zip (Sub.new.run h).2 → fontCodeGlyph wanted subsetOK trueType (Sub.new.run h).1.ids c = some g
+
+/-- Witness of the remaining defect: an OpenType/CFF font embedded whole (SubsetFonts off, or subsetting
+failed). The first glyph used, say glyph 5, gets code 1; the CIDToGIDMap stream that would translate 1 ↦ 5
+does not apply to a CIDFontType0, a conforming reader shows glyph 1. -/
+theorem cff_whole_font_witness :
+    (Sub.new.run [5]).2 = [1] ∧ fontCodeGlyph false true false (Sub.new.run [5]).1.ids 1 = some 1 ∧
+    fontCodeGlyph true false false (Sub.new.run [5]).1.ids 1 = some 1 := by decide
 
 theorem code_selects_glyph_statement_false : ¬ code_selects_glyph_statement := by
   intro h
-  have := h false false [5] (by decide) 5 1 (by decide)
+  have := h false true false [5] (by decide) 5 1 (by decide)
   revert this
   decide
 
 example : codeGlyph true false (Sub.new.run [5, 7, 5, 300]).1.ids 3 = some 300 := by decide
+example : fontCodeGlyph true false true (Sub.new.run [5, 7, 5, 300]).1.ids 3 = some 300 := by decide
 
 /-! ## (b') W array of a font: advances → widths → W -/
 
